@@ -405,6 +405,33 @@ def translate():
     L.append("def headerValid (magic : List Nat) (version length : Nat) : Bool :=")
     L.append("  " + " && ".join(f"!{c}" for c in conds))
     L.append("")
+    # Archive::load — the acceptance test applied to a PARSED archive: `if COND { Some(a) } else { None }`
+    text = open(os.path.join(REPO, "src/bin/copia/archive.rs"), encoding="utf-8").read()
+    sig, body = fn_source(text, "load")
+    if re.sub(r"\s+", "", sig.replace("pub ", "")) != "fnload(path:&Path,expected_pair:&str)->Option<Self>":
+        raise TranslateError(f"signature of Archive::load changed: {sig!r}")
+    body = re.sub(r"//[^\n]*", "", body)
+    m = re.search(r"\bif\s+(.*?)\{\s*Some\(a\)\s*\}\s*else\s*\{\s*None\s*\}", body, re.S)
+    if not m or body.count("Some(") != 1:
+        raise TranslateError("Archive::load: expected exactly one `if COND { Some(a) } else { None }`")
+    before = body[:m.start()]
+    if not re.fullmatch(r"\{\s*let bytes = std::fs::read\(path\)\.ok\(\)\?;\s*let a: Self = serde_json::from_slice\(&bytes\)\.ok\(\)\?;\s*", before):
+        raise TranslateError("Archive::load: the part before the acceptance test is not `read(path).ok()?; from_slice(..).ok()?`")
+    ctx = dict(CTX, consts={"FORMAT_VERSION": "archiveFormatVersion", "a": "a", "expected_pair": "expected"},
+               fields={"format_version": "formatVersion", "root_pair_hash": "pairHash"})
+    pc = P(tokenize(m.group(1)), ctx)
+    cond = pc.expr()
+    if pc.peek() is not None:
+        raise TranslateError("Archive::load: trailing tokens in the acceptance condition")
+    L.append("/-- the two header fields `Archive::load` looks at -/")
+    L.append("structure ArchHdr where")
+    L.append("  formatVersion : Nat")
+    L.append("  pairHash : String")
+    L.append("")
+    L.append("/-- `src/bin/copia/archive.rs::Archive::load`: a parsed archive is trusted iff this holds (anything unreadable or unparsable is `None` before) -/")
+    L.append("def archiveAccept (a : ArchHdr) (expected : String) : Bool :=")
+    L.append("  " + cond)
+    L.append("")
     L.append("end Copia.Gen")
     return "\n".join(L) + "\n"
 
